@@ -38,7 +38,7 @@ Definition unary_op (e : str) : res str :=
 (* keys of NAMES_DICT_VOID then NAMES_DICT_NON_VOID that pass the suffix filters, in dict order *)
 Definition fun_keys : list str := map s_
   ["I"; "D"; "D2"; "LOG"; "ABS"; "SQRT"; "DIODE"; "SIGN"; "EXP"; "COS"; "SIN"; "TAN";
-   ">"; "<"; "%"; "s&"; "s$"; "s>"; "s<"; "s%"; "sr>"; "sr%"; "sr<";
+   (* the operator-like keys  >  <  %  s&  s$  s>  s<  s%  sr>  sr%  sr<  are skipped by the suffix filter since the repair recorded under C02 *)
    "SUM"; "AVG"; "VAR"; "STD"; "MSE"; "RMSE"; "MAD"; "MIN"; "MAX"; "MEDIAN"; "ARGMIN"; "ARGMAX"]%string.
 Definition mark_functions (e : str) : str :=
   fold_left (fun e k => replace (k ++ s_ "(") (k ++ s_ "@(") e) fun_keys e.
